@@ -527,7 +527,7 @@ impl Monitor for C20 {
          satisfies the C15 oracle with identical unvisited flags; predicates, degrees, eval Some/None and output values, arrow acceptance, monomorphism and convexity equal to the definitions. Every 8th case \
          runs the C07 scalar-definition checker on AdvKind itself (a test backend that breaks the contract makes the run inconclusive). Counters choice:*/diverged:* record how often each kind of choice \
          point was reached and actually answered differently from the Vec backend. non-trivial = every case (each exercises >=1 diverging choice point with overwhelming probability; measured by the \
-         diverged:* floors); distinct = hash of (family, sigma, inputs)."
+         diverged:* floors); distinct = hash of (family, sigma, inputs). Also at AdvKind: layered_operations, the library's Identity functor, refusal of a mismatching composition. AdvKind's choices are a deterministic function of (sigma, primitive, argument contents)."
     }
     fn corpus_len(&self) -> u64 {
         0
